@@ -309,6 +309,10 @@ class Connector:
 
     def _schedule_connection(self, delay, h, is_relay):
         ep = endpoint_from_hint_obj(h, self._tor, self._reactor)
+        if ep is None:
+            # e.g. a tor-tcp-v1 hint (possibly inside a relay entry) when
+            # we are not using Tor: nothing we can dial
+            return
         desc = describe_hint_obj(h, is_relay, self._tor)
         d = deferLater(self._reactor, delay,
                        self._connect, ep, desc, is_relay)
